@@ -23,6 +23,7 @@ import (
 	"github.com/sarchlab/akita/v4/sim"
 	"github.com/sarchlab/mgpusim/v4/amd/driver"
 	"github.com/sarchlab/mgpusim/v4/amd/protocol"
+	"github.com/tebeka/atexit"
 
 	"verifharness/vh"
 )
@@ -67,6 +68,7 @@ type Case struct {
 	Cfg     string     `json:"cfg,omitempty"`   // model configuration to compare with: fixed | orig | cap1 | rerun
 	Steps   []Step     `json:"steps,omitempty"`
 	Hung    bool       `json:"hung"`
+	Crashed bool       `json:"crashed,omitempty"` // runEngine recovered a panic of the driver and called atexit.Exit
 	Skipped []string   `json:"skipped,omitempty"` // requested grants that were not possible
 	Log     []Event    `json:"log,omitempty"`
 	Dump    string     `json:"dump,omitempty"`
@@ -128,6 +130,9 @@ type sched struct {
 	gpuQ       atomic.Int64 // queue whose response event is being handled
 	lastRet    int          // queue of the last response consumed by processReturnReq
 	lstBlocked map[*driver.CommandQueue]bool
+	qnow       [][2]uint64 // length and head of every queue after the last step (98 = not observable)
+	qseen      []bool
+	gpuID      atomic.Uint64
 }
 
 // ---------------------------------------------------------------- the harness' GPU
@@ -144,6 +149,7 @@ type rspEvent struct {
 	*sim.EventBase
 	rsp *protocol.LaunchKernelRsp
 	q   int
+	id  uint64 // command the answered request belongs to
 }
 
 func (c *gpuConn) Name() string                  { return "HarnessGPU" }
@@ -171,7 +177,7 @@ func (c *gpuConn) NotifySend() {
 		}
 		rsp := protocol.NewLaunchKernelRsp(req.Dst, req.Src, req.ID)
 		t := s.eng.CurrentTime() + sim.VTimeInSec(float64(lat)*1e-9)
-		s.eng.Schedule(rspEvent{sim.NewEventBase(t, c), rsp, s.cmdQ[id]})
+		s.eng.Schedule(rspEvent{sim.NewEventBase(t, c), rsp, s.cmdQ[id], id})
 	}
 }
 
@@ -179,6 +185,7 @@ func (c *gpuConn) NotifySend() {
 func (c *gpuConn) Handle(e sim.Event) error {
 	ev := e.(rspEvent)
 	c.s.gpuQ.Store(int64(ev.q))
+	c.s.gpuID.Store(ev.id)
 	c.s.hook("gpu:event")
 	c.s.gpuPort.Deliver(ev.rsp)
 	return nil
@@ -500,15 +507,10 @@ func (s *sched) observe() []uint64 {
 			nw++
 		}
 	}
-	o = append(o, 99, rc, ec, ei, uint64(nw), uint64(nd), b2u(driver.VerifEngineRunning(s.d)), 99)
-	for _, q := range s.qs {
-		n := q.NumCommand()
-		head := uint64(0)
-		if c := q.Peek(); c != nil {
-			id, _ := strconv.ParseUint(strings.TrimPrefix(c.GetID(), "c"), 10, 64)
-			head = id + 1
-		}
-		o = append(o, uint64(n), head, s.numListeners(q), b2u(q.IsRunning))
+	er, _ := tryFor(func() uint64 { return b2u(driver.VerifEngineRunning(s.d)) })
+	o = append(o, 99, rc, ec, ei, uint64(nw), uint64(nd), er, 99)
+	for qi, q := range s.qs {
+		o = append(o, s.qnow[qi][0], s.qnow[qi][1], s.numListeners(q), b2u(q.IsRunning))
 	}
 	o = append(o, 99)
 	for _, a := range s.apps {
@@ -518,24 +520,55 @@ func (s *sched) observe() []uint64 {
 	return o
 }
 
+// tryFor evaluates an observation that takes a mutex of the code under test
+// without ever blocking the scheduler: a goroutine parked at a yield point (or
+// blocked for good) may hold that mutex. 98 = could not be observed.
+func tryFor(f func() uint64) (uint64, bool) {
+	ch := make(chan uint64, 1)
+	go func() { ch <- f() }()
+	select {
+	case v := <-ch:
+		return v, true
+	case <-time.After(15 * time.Millisecond):
+		return 98, false
+	}
+}
+
+// peekQueues reads length and head of every queue (commandsMutex).
+func (s *sched) peekQueues() {
+	s.qnow = make([][2]uint64, len(s.qs))
+	s.qseen = make([]bool, len(s.qs))
+	for qi, q := range s.qs {
+		q := q
+		n, ok := tryFor(func() uint64 { return uint64(q.NumCommand()) })
+		head := uint64(98)
+		if ok {
+			head, ok = tryFor(func() uint64 {
+				if c := q.Peek(); c != nil {
+					id, _ := strconv.ParseUint(strings.TrimPrefix(c.GetID(), "c"), 10, 64)
+					return id + 1
+				}
+				return 0
+			})
+		}
+		s.qnow[qi], s.qseen[qi] = [2]uint64{n, head}, ok
+	}
+}
+
 // numListeners must not block the scheduler: a goroutine of the code under
 // test may be blocked while it holds listenerMutex (then 98 is reported).
 func (s *sched) numListeners(q *driver.CommandQueue) uint64 {
 	if s.lstBlocked[q] {
 		return 98
 	}
-	ch := make(chan int, 1)
-	go func() { ch <- driver.VerifNumListeners(q) }()
-	select {
-	case n := <-ch:
-		return uint64(n)
-	case <-time.After(50 * time.Millisecond):
+	n, ok := tryFor(func() uint64 { return uint64(driver.VerifNumListeners(q)) })
+	if !ok {
 		if s.lstBlocked == nil {
 			s.lstBlocked = map[*driver.CommandQueue]bool{}
 		}
 		s.lstBlocked[q] = true
-		return 98
 	}
+	return n
 }
 
 func b2u(b bool) uint64 {
@@ -648,9 +681,29 @@ func allQuiet(me int64) {
 // goroutines behind, so generation stops after maxHung of them.
 var hungCases, maxHung = 0, 3
 
+// the driver's runEngine turns a panic into atexit.Exit(1): keep what was
+// observed up to then (the run in progress is marked as crashed).
+var (
+	doneCases []*Case
+	curCase   *Case
+	outPath   string
+)
+
+func dumpOnExit() {
+	if curCase == nil || outPath == "" {
+		return
+	}
+	curCase.Crashed = true
+	curCase.Coq = coqCase(curCase)
+	data, _ := json.Marshal(append(doneCases, curCase))
+	os.WriteFile(outPath, data, 0o644)
+}
+
 func enough() bool { return hungCases >= maxHung }
 
 func runCase(c *Case, maxSteps int, explore int) {
+	curCase = c
+	defer func() { doneCases, curCase = append(doneCases, c), nil }()
 	me := goid()
 	allQuiet(me)
 	s := &sched{me: me, arrivals: make(chan arrival, 256), byGoid: map[int64]*thread{}}
@@ -756,6 +809,9 @@ func runCase(c *Case, maxSteps int, explore int) {
 		old := th.point
 		oldGq := s.gpuQ.Load()
 		wasSending := th.sending
+		if th.kind == kEng && old == "gpu:event" { // the GPU's answer for this command reaches the driver's port now
+			c.Log = append(c.Log, Event{E: "rsp", Q: int(oldGq), ID: s.gpuID.Load()})
+		}
 		// what the application thread is about to do (for the monitor's log)
 		if th.kind == kApp && old == "app:idle" && th.ops[th.cur.Load()].Op == "enq" {
 			o := th.ops[th.cur.Load()]
@@ -768,8 +824,9 @@ func runCase(c *Case, maxSteps int, explore int) {
 		th.atYield = false
 		th.grant <- struct{}{}
 		s.settle()
-		for qi, q := range s.qs { // which queue did processReturnReq complete a command of?
-			if uint64(q.NumCommand()) < s.qshadow[qi][0] {
+		s.peekQueues()
+		for qi := range s.qs { // which queue did processReturnReq complete a command of?
+			if s.qseen[qi] && s.qnow[qi][0] < s.qshadow[qi][0] {
 				s.lastRet = qi
 			}
 		}
@@ -778,16 +835,10 @@ func runCase(c *Case, maxSteps int, explore int) {
 		if th.kind == kApp && th.rets.Load() > rets {
 			c.Log = append(c.Log, Event{E: "ret", T: th.idx, Q: th.ops[th.cur.Load()-1].Q})
 		}
-		for qi, q := range s.qs {
-			n := uint64(q.NumCommand())
-			head := uint64(0)
-			if cm := q.Peek(); cm != nil {
-				id, _ := strconv.ParseUint(strings.TrimPrefix(cm.GetID(), "c"), 10, 64)
-				head = id + 1
-			}
-			if s.qshadow[qi] != [2]uint64{n, head} {
-				s.qshadow[qi] = [2]uint64{n, head}
-				c.Log = append(c.Log, Event{E: "q", Q: qi, N: int(n), ID: head})
+		for qi := range s.qs {
+			if s.qseen[qi] && s.qshadow[qi] != s.qnow[qi] {
+				s.qshadow[qi] = s.qnow[qi]
+				c.Log = append(c.Log, Event{E: "q", Q: qi, N: int(s.qnow[qi][0]), ID: s.qnow[qi][1]})
 			}
 		}
 		c.Grants = append(c.Grants, name)
@@ -893,7 +944,7 @@ func genProg(r *vh.Rng, nq int, next *uint64) []Op {
 }
 
 var holds = []string{"a0:drain:signal", "ra:ra:test", "ra:ra:continue", "ra:ra:tick", "ra:ra:pause",
-	"e:eng:returned", "e:eng:run", "e:tick:end", "a0:wait", "a0:drain:check"}
+	"e:eng:returned", "e:eng:run", "e:tick:end", "a0:wait", "a0:drain:check", "e:deq:notify", "a0:enq:notify"}
 
 func genCase(r *vh.Rng, cfg string) *Case {
 	c := &Case{NQ: 1 + r.Intn(3), Policy: "random", Seed: r.U64(), Bias: r.Intn(4), Cfg: cfg}
@@ -974,6 +1025,13 @@ func shapes() []*Case {
 	add(2, [][]Op{{noopOp(0, 1), noopOp(0, 2), noopOp(0, 3), drainOp(0)}}, "", "ra:ra:test")
 	add(2, [][]Op{{asyncOp(0, 1, 3), asyncOp(0, 2, 1), drainOp(0)}, {asyncOp(1, 3, 9), noopOp(1, 4), drainOp(1)}},
 		"", "e:tick:end", "ra:ra:test")
+	// kernels in flight on queues of two contexts, the first context answered first (and the other way round)
+	add(2, [][]Op{{asyncOp(0, 1, 2), noopOp(0, 2), drainOp(0)}, {asyncOp(1, 3, 40), noopOp(1, 4), drainOp(1)}}, "", "a1:drain:check")
+	add(2, [][]Op{{asyncOp(0, 1, 40), noopOp(0, 2), drainOp(0)}, {asyncOp(1, 3, 2), noopOp(1, 4), drainOp(1)}}, "")
+	add(3, [][]Op{{asyncOp(0, 1, 5), asyncOp(1, 2, 2), asyncOp(2, 3, 9), drainOp(1), drainOp(0), drainOp(2)}}, "")
+	// a drain entering while a Dequeue / Enqueue of the same queue is between its update and its notification
+	add(1, [][]Op{{noopOp(0, 1), noopOp(0, 2), drainOp(0)}, {drainOp(0), drainOp(0)}}, "e:deq:notify")
+	add(1, [][]Op{{noopOp(0, 1), drainOp(0), noopOp(0, 2), drainOp(0)}, {drainOp(0), drainOp(0), drainOp(0)}}, "a0:enq:notify", "e:deq:notify")
 	return out
 }
 
@@ -1109,7 +1167,7 @@ type StressResult struct {
 // sleeps 0-200 us at about every 12th yield point, which stretches the windows
 // between the protocol's steps (for instance between Engine.Continue() and the
 // engineRunning test of runAsync) without controlling the schedule.
-func stress(seconds float64, workers int, target int64, mix, chaos bool, seed uint64) StressResult {
+func stress(seconds float64, workers int, target int64, mix, chaos, oneq bool, seed uint64) StressResult {
 	driver.VerifYieldHook = nil
 	var rnd atomic.Uint64
 	rnd.Store(seed*0x9e3779b97f4a7c15 + 1)
@@ -1143,8 +1201,11 @@ func stress(seconds float64, workers int, target int64, mix, chaos bool, seed ui
 		ctx := d.Init()
 		go func(w int) {
 			q := d.CreateCommandQueue(ctx)
+			if oneq { // every worker enqueues to and drains the one shared queue
+				q = shared
+			}
 			for n := 0; !stop.Load(); n++ {
-				if n%5000 == 4999 && n < 40000 {
+				if n%5000 == 4999 && n < 40000 && !oneq {
 					q = d.CreateCommandQueue(ctx)
 				}
 				if mix && next()%4 == 0 {
@@ -1179,7 +1240,7 @@ func stress(seconds float64, workers int, target int64, mix, chaos bool, seed ui
 		for w := range per {
 			if k := per[w].Load(); k != lastN[w] {
 				lastN[w], lastT[w] = k, time.Now()
-			} else if time.Since(lastT[w]) > 3*time.Second {
+			} else if time.Since(lastT[w]) > 2*time.Second {
 				res.Hung = true
 			}
 		}
@@ -1216,14 +1277,17 @@ func main() {
 	stressS := flag.Float64("stress", 0, "run the un-instrumented stress loop for this many seconds")
 	stressW := flag.Int("workers", 8, "")
 	stressMix := flag.Bool("mix", false, "stress: asynchronous commands and a shared queue as well")
+	stressOneQ := flag.Bool("oneq", false, "stress: all workers share one queue")
 	stressChaos := flag.Bool("chaos", false, "stress: random short sleeps at the yield points")
 	stressN := flag.Int64("stress-iters", 0, "stop the stress loop after this many iterations instead")
 	flag.Parse()
+	outPath = *out
+	atexit.Register(dumpOnExit)
 
 	var result interface{}
 	switch {
 	case *stressS > 0 || *stressN > 0:
-		result = stress(*stressS, *stressW, *stressN, *stressMix, *stressChaos, *seed)
+		result = stress(*stressS, *stressW, *stressN, *stressMix, *stressChaos, *stressOneQ, *seed)
 	case *replay != "":
 		var cases []*Case
 		data, err := os.ReadFile(*replay)
@@ -1262,12 +1326,12 @@ func main() {
 	default:
 		r := vh.NewRng(*seed)
 		var cases []*Case
+		cases = append(cases, shapedCases(r.Fork(), *cfg, *shaped, *maxSteps)...)
 		for i := 0; i < *n && !enough(); i++ {
 			c := genCase(r.Fork(), *cfg)
 			runCase(c, *maxSteps, 0)
 			cases = append(cases, c)
 		}
-		cases = append(cases, shapedCases(r.Fork(), *cfg, *shaped, *maxSteps)...)
 		if *around >= 0 {
 			cases = append(cases, exploreAround(r.Fork(), *cfg, *around, *aroundRuns, *maxSteps)...)
 		}
